@@ -174,7 +174,6 @@ RECURSIVE Distinct(_)
 Distinct(s) == IF s = <<>> THEN <<>>
                ELSE <<Head(s)>> \o Distinct(SelectSeq(Tail(s), LAMBDA x : x # Head(s)))
 RangeOf(s) == {s[i] : i \in 1..Len(s)}
-Batches == UNION {[1..l -> Keys] : l \in 1..MaxBatch}
 
 \* live cells of mm[k] as <<n, e, v>> triples (ids), for the replayer
 WantIds(mm, k) == SetToSortSeq({<<c[1], c[2], mm[k][c[1]][c[2]]>> : c \in {c \in NSs \X EKs : mm[k][c[1]][c[2]] # 0}},
@@ -183,7 +182,7 @@ AllIds(mm) == [k \in Keys |-> WantIds(mm, k)]
 
 BatchStart ==
   /\ phase = "idle"
-  /\ \E evs \in Pick(Batches) :
+  /\ \E l \in Pick(1..MaxBatch) : \E evs \in Pick([1..l -> Keys]) :
        /\ phase' = "fetch" /\ bk' = RangeOf(evs) /\ todo' = Distinct(evs) /\ got' = NoGot
        /\ Log([a |-> "BatchStart", evs |-> evs])
   /\ UNCHANGED <<m, db, fv, timers, rd, rdv, snap, nret, nmut, ntim, nbg, nck, nre>>
@@ -214,7 +213,7 @@ HandlerReturn ==
 \* v = 0: delete; 1, 2: put v1 / v2; 3: put the EMPTY value
 Apply ==
   /\ phase = "apply" /\ nret < MaxRet /\ nmut < MaxMut
-  /\ \E k \in Pick(bk), n \in Pick(NSs), e \in Pick(EKs), v \in Pick(0..3) :
+  /\ \E k \in Pick(bk), n \in Pick(NSs), e \in Pick(EKs), v \in 0..3 :   \* (all four values: weight 4 under -simulate)
        /\ m' = [m EXCEPT ![k][n][e] = v]
        /\ db' = IF v = 0 THEN DelDb(db, Enc(k, n, e)) ELSE PutDb(db, Enc(k, n, e), v)
        /\ fv' = [x \in Keys |-> Fetch(db', x)]
@@ -267,7 +266,7 @@ Restore ==
 
 \* one step of DKV's background flush / compaction goroutine: invisible here
 Bg ==
-  /\ nbg < MaxBg
+  /\ nbg < MaxBg /\ (Sim => nbg * 4 <= Len(hist))   \* (spread over the history when simulating)
   /\ nbg' = nbg + 1
   /\ \E lane \in Pick({"flush", "compact"}) : Log([a |-> "Bg", lane |-> lane])
   /\ UNCHANGED <<m, db, fv, timers, phase, bk, todo, rd, rdv, got, snap, nret, nmut, ntim, nck, nre>>
